@@ -4,7 +4,7 @@ from __future__ import annotations
 import pickle
 import struct
 
-from props.common import (I128_MAX, I128_MIN, T64, edge_ticks, outcome, rand_ticks, render,
+from props.common import (I128_MAX, I128_MIN, T64, edge_ticks, outcome, rand_ticks, render, show,
                           translation_validation, norm_model)
 
 PID = "C02"
@@ -45,11 +45,11 @@ def check_value(ctx, t: int, bt):
         o = outcome(cls.from_ticks, t)
         if not inr:
             if o != ("err", "OverflowError", "OverflowError"):
-                ctx.violation(path=f"{cls.__name__}.from_ticks", ticks=t, observed=str(o),
+                ctx.violation(path=f"{cls.__name__}.from_ticks", ticks=t, observed=show(o),
                               required="OverflowError for a tick count outside the signed 128-bit range")
             continue
         if o[0] != "ok" or o[1].ticks != t or type(o[1].ticks) is not int:
-            ctx.violation(path=f"{cls.__name__}.from_ticks", ticks=t, observed=str(o),
+            ctx.violation(path=f"{cls.__name__}.from_ticks", ticks=t, observed=show(o),
                           required="from_ticks(t).ticks == t")
             continue
         x = o[1]
@@ -60,7 +60,7 @@ def check_value(ctx, t: int, bt):
                           required=f"(floor(t/2^64), t mod 2^64) = {(w, f)}")
         o2 = outcome(cls.from_tuple, TimeValueTuple(w, f))
         if o2[0] != "ok" or o2[1].ticks != t:
-            ctx.violation(path=f"{cls.__name__}.from_tuple", ticks=t, observed=str(o2), required="ticks == t")
+            ctx.violation(path=f"{cls.__name__}.from_tuple", ticks=t, observed=show(o2), required="ticks == t")
         if tuple(TimeValueTuple.from_cvi(*tup.to_cvi())) != (w, f) or tup.to_cvi() != (f, w):
             ctx.violation(path="TimeValueTuple.cvi", ticks=t, observed=str(tup.to_cvi()), required=str((f, w)))
         for proto in range(2, pickle.HIGHEST_PROTOCOL + 1):
@@ -82,11 +82,11 @@ def check_tuple_rejects(ctx, w: int, f: int, bt):
         o = outcome(cls.from_tuple, bt.TimeValueTuple(w, f))
         if ok:
             if o[0] != "ok" or o[1].ticks != w * T64 + f or tuple(o[1].to_tuple()) != (w, f):
-                ctx.violation(path=f"{cls.__name__}.from_tuple", whole=w, frac=f, observed=str(o),
+                ctx.violation(path=f"{cls.__name__}.from_tuple", whole=w, frac=f, observed=show(o),
                               required="ticks == w*2^64+f and to_tuple() == (w, f)")
         elif o[:2] != ("err", "OverflowError"):
             ctx.violation(path=f"{cls.__name__}.from_tuple", whole=w, frac=f,
-                          observed=str(o if o[0] == "err" else ("ok", o[1].ticks)),
+                          observed=show(o),
                           required="OverflowError (never wrapped, clamped or truncated)")
 
 
@@ -160,14 +160,14 @@ def run(ctx):
         o = outcome(bt.TimeDelta, s)
         okr = -(1 << 63) <= s < (1 << 63)
         if (okr and (o[0] != "ok" or o[1].ticks != s << 64)) or (not okr and o[:2] != ("err", "OverflowError")):
-            ctx.violation(path="TimeDelta(int)", seconds=s, observed=str(o), required="s<<64 or OverflowError")
+            ctx.violation(path="TimeDelta(int)", seconds=s, observed=show(o), required="s<<64 or OverflowError")
         ctx.case(("ctor", s))
     # wrong types never produce a value
     for bad in (1.5, "1", None, b"1"):
         for cls in (bt.TimeDelta, bt.DateTime):
             o = outcome(cls.from_ticks, bad)
             if o[:2] != ("err", "TypeError"):
-                ctx.violation(path=f"{cls.__name__}.from_ticks", arg=repr(bad), observed=str(o), required="TypeError")
+                ctx.violation(path=f"{cls.__name__}.from_ticks", arg=repr(bad), observed=show(o), required="TypeError")
     # -- translation validation of the generated definitions --------------------------------
     TD, DT, TVT = bt.TimeDelta, bt.DateTime, bt.TimeValueTuple
     tv_vals = edge_ticks() + [rand_ticks(ctx.rng) for _ in range(1500 if ctx.quick else 20000)]
@@ -189,16 +189,27 @@ def run(ctx):
     ctx.extra["translation_validation_cases"] = n
     # -- correspondence of the hand-written record model with ndarray.tobytes() ---------------
     sample = [t for t in tv_vals if I128_MIN <= t <= I128_MAX][:3000]
-    lines = [f"rec encode {t % T64} {t // T64}" for t in sample]
-    res = ctx.model(lines)
-    if res is not None:
-        arr = bt.TimeDeltaArray([TD.from_ticks(t) for t in sample])
+    for cls, acls in ((TD, bt.TimeDeltaArray), (DT, bt.DateTimeArray)):
+        arr = acls([cls.from_ticks(t) for t in sample])
         raw = arr._array.tobytes()
+        items = [arr._array[i].item() for i in range(len(sample))]
+        lines = [f"elem store {t}" for t in sample]
+        lines += [f"rec encode {l} {m}" for l, m in items]
+        lines += ["elem load " + " ".join(str(b) for b in raw[16 * i:16 * i + 16]) for i in range(len(sample))]
+        res = ctx.model(lines)
+        if res is None:
+            break
+        n = len(sample)
         for i, t in enumerate(sample):
             want = render(list(raw[16 * i:16 * i + 16]))
             if res[i] != want:
-                ctx.mismatch(stream="record-bytes", request=lines[i], model_says=res[i], code_says=want)
-        ctx.extra["record_byte_comparisons"] = len(sample)
+                ctx.mismatch(stream="element-store", request=lines[i], model_says=res[i], code_says=want)
+            if res[n + i] != want:
+                ctx.mismatch(stream="record-bytes", request=lines[n + i], model_says=res[n + i], code_says=want)
+            got = "ok " + str(arr[i].ticks)
+            if norm_model(res[2 * n + i]) != got:
+                ctx.mismatch(stream="element-load", request=lines[2 * n + i], model_says=res[2 * n + i], code_says=got)
+        ctx.extra["record_byte_comparisons"] = ctx.extra.get("record_byte_comparisons", 0) + 3 * n
     v0 = inr[len(inr) // 3]
     ctx.sample({"ticks": v0, "to_tuple": list(expected_tuple(v0)),
                 "bytes": struct.pack("<Qq", v0 % T64, v0 // T64).hex()})
